@@ -45,16 +45,6 @@ Definition num_text (s : str) : bool := forallb num_char s.
 Definition nums_ok (l : list (option str)) : bool :=
   forallb (fun o => match o with Some v => num_text v | None => true end) l.
 
-Definition el_safe_b (gid : str -> str) (el : elem) (raw : list (str * str)) : bool :=
-  xml_name (e_tag el) && forallb attr_ok (expected_attrs gid el raw).
-
-(* the raw Attributes chunk is what printing [raw] gives (without the leading blank), optionally padded *)
-Definition raw_consistent (el : elem) (raw : list (str * str)) (pad : bool) : bool :=
-  match e_attributes el with
-  | [] => match raw with [] => negb pad | _ => false end
-  | a => str_eqb (32 :: a) (attrs_text raw ++ (if pad then [32] else []))
-  end.
-
 Definition expected_tokens (gid : str -> str) (el : elem) (raw : list (str * str)) : option (list token) :=
   let al := expected_attrs gid el raw in
   match e_content el with
